@@ -92,6 +92,48 @@ pub fn build(input: &[u8], o: Opts) -> Outcome {
     }
 }
 
+/// the same configuration reached on a REUSED builder: the options of `prev` are set first (only those `o` sets too —
+/// a setter cannot be undone) and a build is made and discarded; then the options of `o` are set and the build observed
+pub fn build_after(input: &[u8], prev: Opts, o: Opts) -> Outcome {
+    let input = input.to_vec();
+    let r = std::panic::catch_unwind(move || {
+        let mut b = QRBuilder::new(input);
+        if let (Some(e), Some(_)) = (prev.ecl, o.ecl) {
+            b.ecl(ecl_of(e));
+        }
+        if let (Some(m), Some(_)) = (prev.mode, o.mode) {
+            b.mode(mode_of(m));
+        }
+        if let (Some(v), Some(_)) = (prev.version, o.version) {
+            b.version(version_of(v));
+        }
+        if let (Some(m), Some(_)) = (prev.mask, o.mask) {
+            b.mask(mask_of(m));
+        }
+        let _ = std::panic::catch_unwind(std::panic::AssertUnwindSafe(|| b.build().is_ok()));
+        // only the setters whose value CHANGES are called again
+        if let (Some(e), true) = (o.ecl, o.ecl != prev.ecl) {
+            b.ecl(ecl_of(e));
+        }
+        if let (Some(m), true) = (o.mode, o.mode != prev.mode) {
+            b.mode(mode_of(m));
+        }
+        if let (Some(v), true) = (o.version, o.version != prev.version) {
+            b.version(version_of(v));
+        }
+        if let (Some(m), true) = (o.mask, o.mask != prev.mask) {
+            b.mask(mask_of(m));
+        }
+        b.build()
+    });
+    match r {
+        Ok(Ok(q)) => Outcome::Ok(Box::new(q)),
+        Ok(Err(fast_qr::qr::QRCodeError::EncodedData)) => Outcome::ErrEncodedData,
+        Ok(Err(fast_qr::qr::QRCodeError::SpecifiedVersion)) => Outcome::ErrSpecifiedVersion,
+        Err(e) => Outcome::Trap(panic_msg(e)),
+    }
+}
+
 /// one hex digit per module (`Module(u8)` = value | type << 1 < 16), `size*size` of them;
 /// a module byte >= 16 is written as 'X' (never produced by the pinned code)
 pub fn matrix_hex(q: &QRCode) -> String {
